@@ -232,6 +232,10 @@ fn write_forwarded_suffix(
 ///   verbatim: a backend that does not recognise the coding, or that combines
 ///   the repeated fields into `chunked, chunked`, frames the message
 ///   differently than sozu did (TE.TE request smuggling, CWE-444).
+/// - `Content-Length` must be 1*DIGIT (RFC 9110 §8.6). kawa parses the value
+///   with `str::parse`, which also accepts a sign (`+3`), honours it and
+///   forwards the field verbatim; a backend may refuse it or read another
+///   length (CL.CL desynchronisation).
 fn h1_framing_violation(
     blocks: &std::collections::VecDeque<kawa::Block>,
     buf: &[u8],
@@ -250,6 +254,11 @@ fn h1_framing_violation(
                 return Some("Transfer-Encoding is not exactly one `chunked`");
             }
             transfer_encoding_seen = true;
+        } else if compare_no_case(key, b"content-length") {
+            let val = header.val.data(buf);
+            if val.is_empty() || !val.iter().all(u8::is_ascii_digit) {
+                return Some("Content-Length is not 1*DIGIT");
+            }
         }
     }
     None
